@@ -31,8 +31,11 @@ import (
 // The same check decides C02's clause "events of one emitter arrive in order, frames of a packet contiguous" for the one situation C02's own
 // rigs do not produce - a transport upgrade with a backlog on the polling transport. Run with VERIF_AS=C02 it reports under that property.
 var c07pProp, c07pCheck = func() (string, string) {
-	if envStr("VERIF_AS", "") == "C02" {
+	switch envStr("VERIF_AS", "") {
+	case "C02":
 		return "C02", "c02-order-across-upgrade"
+	case "C19": // "a packet handed to the send path is transmitted": the backlog of the polling transport, the heartbeat PING included
+		return "C19", "c19-backlog-across-upgrade"
 	}
 	return "C07", "c07-paused-poll"
 }()
